@@ -43,7 +43,7 @@ import (
 //   * the binding of every other hostname is untouched; instructions never change bindings and name the same record.
 
 const (
-	zzApex = "ap"
+	zzApex = "a.p.x"
 	zzAcme = "cm"
 )
 
